@@ -13,7 +13,10 @@
    Hashes are tokens (Z, 0 = the all-zero hash).  External functions are
    Section variables: [H] (dsha256(filterHash || prevHeader)), [parent]
    (PrevBlock of a block header), and per call the filter oracles
-   (GetFilterHash, VerifyBasicBlockFilter).
+   (GetFilterHash, VerifyBasicBlockFilter).  VerifyBasicBlockFilter itself
+   is modelled at the end of this file ([verify_filter], over an abstract
+   block and the filter's Match predicate); the replay instantiates the
+   [fo_verify] oracle with it, not with the implementation's verdicts.
 
    Go maps are association lists in an arbitrary order; every result that the
    code computes by ranging over a map is either order-insensitive (sets,
@@ -662,3 +665,58 @@ Definition get_checkpointed (genesis : Z) (a : alog2) (cps : list Z) (ars : list
   end.
 
 End Checkpointed.
+
+(* ================= VerifyBasicBlockFilter (verification.go) ================= *)
+(* The decision of VerifyBasicBlockFilter over an abstract block and an
+   abstract filter.  A script is what the code looks at: its identity (token),
+   its length and its first byte (-1 if empty); [sc_parses] (txscript parses
+   it) and the size are carried along because they are what the code must NOT
+   look at.  An input is what txscript.ComputePkScript makes of it.  The
+   filter is its Match predicate on script tokens (gcs.Filter.Match; its
+   error path - a bit stream ending early is io.EOF = "no match" - cannot be
+   reached and is not modelled).
+
+   Result as in the Go code: None = error (a script that must match does
+   not), Some n = n OP_RETURN outputs matched.
+
+   The model is of the tree WITH the repair F30: the outputs of the coinbase
+   transaction are checked like all others (only its inputs are skipped). *)
+Definition OP_RETURN : Z := 106.     (* txscript.OP_RETURN = 0x6a *)
+
+Record ascript := { sc_tok : Z; sc_len : Z; sc_first : Z; sc_parses : bool }.
+Inductive ainput :=
+| INoWitness                 (* len(in.Witness) == 0: skipped *)
+| INoScript                  (* ComputePkScript fails: skipped *)
+| IScript (s : Z).           (* the pk script derived from the witness *)
+Record atx := { tx_outs : list ascript; tx_ins : list ainput }.
+Definition ablock := list atx.       (* head = the coinbase transaction *)
+
+Definition vout (f : Z -> bool) (acc : option Z) (s : ascript) : option Z :=
+  match acc with
+  | None => None
+  | Some n =>
+    if sc_len s =? 0 then Some n
+    else if sc_first s =? OP_RETURN then Some (if f (sc_tok s) then n + 1 else n)
+    else if f (sc_tok s) then Some n else None
+  end.
+
+Definition vin (f : Z -> bool) (acc : option Z) (i : ainput) : option Z :=
+  match acc with
+  | None => None
+  | Some n =>
+    match i with
+    | INoWitness => Some n
+    | INoScript => Some n
+    | IScript s => if f s then Some n else Some n      (* a miss is only logged *)
+    end
+  end.
+
+Definition vtx (f : Z -> bool) (coinbase : bool) (acc : option Z) (tx : atx) : option Z :=
+  let a1 := fold_left (vout f) (tx_outs tx) acc in
+  if coinbase then a1 else fold_left (vin f) (tx_ins tx) a1.
+
+Definition verify_filter (b : ablock) (f : Z -> bool) : option Z :=
+  match b with
+  | [] => Some 0
+  | cb :: rest => fold_left (vtx f false) rest (vtx f true (Some 0) cb)
+  end.
